@@ -152,5 +152,5 @@ def phases(tier):
   big = tier == 'thorough'
   return [
       {'name': 'serialize', 'kind': 'hyp', 'strategy': lambda: cases(tier),
-       'run': check_case, 'examples': int((30000 if big else 2000) * k)},
+       'run': check_case, 'examples': int((100000 if big else 2000) * k)},
   ]
